@@ -160,9 +160,26 @@ class Ctx:
                 # defining relation into the path condition (otherwise it is unconstrained there)
                 nm = P.TAB.names[sid]
                 for lab, h in list(P.HYP):
-                    if lab in ("def-inverse:" + nm, "def-sqrt:" + nm):
+                    if lab == "def-inverse:" + nm and OPTIONS["def_relations"] == "monotone":
+                        self._inverse_lemmas(sid, v, h)
+                    elif lab in ("def-inverse:" + nm, "def-sqrt:" + nm):
                         self.add(self.poly_to_z3(h) == 0)
         return v
+
+    def _inverse_lemmas(self, sid, v, h):
+        """OPTIONS['def_relations'] == 'monotone': w = 1/q (h is w*q - 1) enters the path condition
+        through the *linear* order theory of reciprocals instead of the product w*q == 1:
+        q != 0, sign(w) = sign(q), and for two reciprocals |w| < |w'| <=> |q'| < |q|.
+        Exact for comparisons among (absolute values of) reciprocals and zero (sort keys); an
+        over-approximation of the path condition otherwise (more paths, never fewer)."""
+        q = P.Poly({tuple(x for x in m if x[0] != sid): c for m, c in (h + 1).t.items()})
+        qz = self.poly_to_z3(q)
+        self.add(z3.And(qz != 0, (qz > 0) == (v > 0), (qz < 0) == (v < 0)))
+        av, aq = z3.If(v >= 0, v, -v), z3.If(qz >= 0, qz, -qz)
+        invs = self.__dict__.setdefault("_inverses", [])
+        for av2, aq2 in invs:
+            self.add(z3.And((av < av2) == (aq2 < aq), (av == av2) == (aq2 == aq)))
+        invs.append((av, aq))
 
     def poly_to_z3(self, p):
         terms = []
